@@ -68,7 +68,7 @@ def parse_zck(b):
 
 # ---------------------------------------------------------------- loopback range server
 class State:
-    file = b""; max_ranges = 10 ** 6; boundary = "00000000000000000001"; quoted = False; log = []; served = 0; kill_after = None; victim = None; vary = False; multiparts = 0
+    file = b""; max_ranges = 10 ** 6; boundary = "00000000000000000001"; quoted = False; log = []; served = 0; kill_after = None; victim = None; vary = False; multiparts = 0; no_ranges = False
 
 
 class H(http.server.BaseHTTPRequestHandler):
@@ -79,7 +79,7 @@ class H(http.server.BaseHTTPRequestHandler):
 
     def do_GET(self):
         f = State.file; rh = self.headers.get("Range")
-        if not rh:
+        if not rh or State.no_ranges:           # a server without range support answers every request with the whole file
             self.send_response(200); self.send_header("Content-Length", str(len(f))); self.end_headers(); self.out(f); State.log.append((None, 200)); return
         m = re.match(r"bytes=(.*)$", rh.strip()); rg = []
         for part in m.group(1).split(","):
@@ -161,8 +161,8 @@ def expand(seg):
     return (b"line %d of the segment\n" % seed) * (n // 20 + 1)
 
 
-def run_zckdl(d, have_a, victim_hook=False):
-    cmd = [os.path.join(TOOLS, "zckdl")] + (["-s", os.path.join(d, "A.zck")] if have_a else []) + ["http://127.0.0.1:%d/B.zck" % PORT]
+def run_zckdl(d, have_a, victim_hook=False, extra=()):
+    cmd = [os.path.join(TOOLS, "zckdl")] + list(extra) + (["-s", os.path.join(d, "A.zck")] if have_a else []) + ["http://127.0.0.1:%d/B.zck" % PORT]
     env = dict(os.environ); env["no_proxy"] = "*"; env.pop("http_proxy", None)
     p = subprocess.Popen(cmd, cwd=os.path.join(d, "t"), stdin=subprocess.DEVNULL, stdout=subprocess.PIPE, stderr=subprocess.PIPE, preexec_fn=limits, env=env)
     if victim_hook:
@@ -236,6 +236,7 @@ def check_case(case):
     if T0:
         open(tp, "wb").write(T0)
     State.file = B; State.max_ranges = case["max_ranges"]; State.boundary = case["boundary"]; State.quoted = case["quoted"]; State.log = []; State.served = 0; State.kill_after = None; State.vary = case.get("vary_boundary", False); State.multiparts = 0
+    State.no_ranges = bool(case.get("no_ranges")) and not case["kill_after"]
     hp = min(max(89, hb["total"]), len(B))
     on_disk_at_kill = None
     if case["kill_after"]:
@@ -249,11 +250,27 @@ def check_case(case):
         State.log = []; T_before = bytes(S1)
     else:
         T1 = bytearray(T0.ljust(hp, b"\0")); T1[:hp] = B[:hp]; T_before = bytes(T1)
+    if State.no_ranges:
+        # no range support at all: zckdl falls back to fetching the whole file (or gives up with --fail-no-ranges);
+        # only the end state is judged - success means the target is B
+        fnr = bool(case.get("fail_no_ranges")); label("server-without-ranges" + ("+fail-no-ranges" if fnr else ""))
+        rc, err = run_zckdl(d, have_a, extra=(["--fail-no-ranges"] if fnr else []) + ["-v"] * (case.get("damage", 0) % 3))
+        State.no_ranges = False
+        if rc == -99:
+            return ("zckdl-hang", "zckdl did not finish within 120 s (server without range support)")
+        if rc < 0 or rc == 77 or "Sanitizer" in err or "runtime error" in err:
+            return ("zckdl-crash", "zckdl died (status %d) against a server without range support: %s" % (rc, err[-300:]))
+        if fnr:
+            return None if rc != 0 else ("fail-no-ranges-ignored", "zckdl --fail-no-ranges exits 0 although the server answered the range request with 200")
+        if rc != 0:
+            return ("zckdl-fails", "zckdl exits %d against a server without range support (whole-file fallback): %s" % (rc, err[-300:]))
+        T = open(tp, "rb").read()
+        return None if T == B else ("target-differs", "whole-file fallback: zckdl exits 0 but the target (%d bytes) differs from B (%d bytes)" % (len(T), len(B)))
     rc, err = run_zckdl(d, have_a)
     if rc == -99:
         return ("zckdl-hang", "zckdl did not finish within 120 s")
     if rc != 0:
-        if rc < 0 or "Sanitizer" in err or "runtime error" in err:
+        if rc < 0 or rc == 77 or "Sanitizer" in err or "runtime error" in err:
             return ("zckdl-crash", "zckdl died (status %d): %s" % (rc, err[-300:]))
         return ("zckdl-fails", "zckdl exits %d on a well-formed scenario: %s" % (rc, err[-300:]))
     T = open(tp, "rb").read()
@@ -309,7 +326,7 @@ def cases(draw):
     return {"segs": [list(x) for x in draw(st.lists(seg, min_size=1, max_size=14))], "edits": [[a, b, list(c)] for a, b, c in draw(st.lists(st.tuples(st.integers(0, 2), st.integers(0, 20), seg), max_size=4))],
             "have_a": draw(st.booleans()), "target": draw(st.integers(0, 4)), "damage": draw(st.integers(0, 2 ** 15)), "comp": draw(st.sampled_from([None, "none", "zstd"])),
             "max_ranges": draw(st.sampled_from([1, 2, 7, 127, 10 ** 6, 10 ** 6])), "boundary": draw(st.one_of(st.just("00000000000000000001"), st.text(alphabet="0123456789abcdefXYZ", min_size=1, max_size=40), st.sampled_from(["a+b", "x(1)y", "gc0p4Jq0M2Yt08jU534c0p", "=_?:'a"]))),
-            "quoted": draw(st.booleans()), "vary_boundary": draw(st.booleans()), "kill_after": draw(st.integers(1, 60000)) if A.property == "C11" else draw(st.one_of(st.none(), st.none(), st.none(), st.integers(1, 30000)))}
+            "quoted": draw(st.booleans()), "vary_boundary": draw(st.booleans()), "no_ranges": draw(st.integers(0, 7)) == 0, "fail_no_ranges": draw(st.integers(0, 2)) == 0, "kill_after": draw(st.integers(1, 60000)) if A.property == "C11" else draw(st.one_of(st.none(), st.none(), st.none(), st.integers(1, 30000)))}
 
 
 N = A.cases or (25 if A.tier == "quick" else 400)
